@@ -431,6 +431,12 @@ def histories(ctx, b_hist, b_nzh, b_normh):
             op = jk.gen_cf_op(rng, spec, name=rng.choice(["nc.get_array", "nc.sample_patch_sum", "cf.sample", "cf.to_dict"]))
             case_corr_hist(ctx, b_hist, spec, [op], "via_file")
             case_corr_hist(ctx, b_hist, spec, [op], "direct")
+    # weights that are not positive, after one read-only call, sampled directly and through a file
+    for profile in ("signed", "member-total-zero"):
+        for auto in (False, True):
+            spec = gen_corr_wts(rng, full, auto, small=True, profile=profile)
+            op = jk.gen_cf_op(rng, spec, name=rng.choice(["nc.get_array", "nc.sample_patch_sum", "cf.sample", "cf.to_dict"]))
+            case_corr_hist(ctx, b_hist, spec, [op], "via_file" if auto else "direct")
     # random sequences, interleaved with set_patch_pair; a quarter of them sampled through a file written afterwards
     small = not ctx.quick()
     for _ in range(ctx.n(40, 500)):
@@ -438,6 +444,8 @@ def histories(ctx, b_hist, b_nzh, b_normh):
         few = True if ctx.quick() else rng.random() < 0.7
         if rng.random() < 0.35:
             spec = gen_corr_mag(rng, sub, rng.random() < 0.5, small=few)
+        elif rng.random() < 0.2:
+            spec = gen_corr_wts(rng, sub, rng.random() < 0.5, small=few)
         else:
             spec = gen_corr(rng, sub, rng.random() < 0.5, small=few)
         # set_patch_pair stores small dyadic numbers: next to counts scaled by 2^+-10.. the float sums would round
@@ -556,6 +564,80 @@ def gen_corr_mag(rng, sub, auto, small=False, profile=None, shape=None, edges=No
     spec["mag"] = dict(profile=profile, base=base, ragged=ragged, zeroed=zeroed,
                        counts_scaled=any(abs(e[0]) > 8 for k in members for e in exps[k]))
     return spec
+
+
+# ----------------------------------------------------------------------------- weights that are not positive
+# A sample's total weight is the sum of whatever its weight column holds: patches that weigh nothing (masked objects),
+# weights of both signs, one sample of one member whose weights cancel in some bins or in all (the term is undefined there
+# and the model requires nothing of it, but every jackknife sample that is defined is compared), all weight in one patch.
+WT_PROFILES = ("zero-patches", "signed", "member-total-zero", "one-patch", "all-zero-bin")
+
+
+def gen_corr_wts(rng, sub, auto, small=False, profile=None, shape=None, edges=None):
+    profile = profile or rng.choice(WT_PROFILES)
+    B, N = shape or jk.pick_shape(rng, small)
+    d = jk.gen_corrfunc(rng, B, N, auto, rng.choice(["dense", "dense", "dyadic", "binary"]), sub)
+    members = [k for k in jk.ALLK if d[k] is not None]
+
+    def sides(pc):
+        """the weight arrays of a member to change: both when an autocorrelation shares them"""
+        if bool(pc["auto"]) and np.array_equal(pc["w1"], pc["w2"]):
+            return "shared"
+        return rng.choice(["w1", "w2", "both"])
+
+    def apply(pc, f):
+        which = sides(pc)
+        if which == "shared":
+            f(pc["w1"])
+            pc["w2"] = pc["w1"].copy()
+        else:
+            for name in (("w1", "w2") if which == "both" else (which,)):
+                f(pc[name])
+
+    def zero_row(w, b):
+        if rng.random() < 0.5:
+            w[b, :] = 0.0
+        else:                           # both signs, cancelling exactly
+            for i in range(N - 1):
+                w[b, i] *= rng.choice([1.0, 1.0, -1.0])
+            w[b, N - 1] = -float(w[b, :N - 1].sum())
+    touched = None
+    if profile == "zero-patches":
+        for k in members:
+            apply(d[k], lambda w: w.__imul__((np.array([[rng.random() < 0.5 for _ in range(N)] for _ in range(B)])).astype(float)))
+    elif profile == "signed":
+        for k in members:
+            apply(d[k], lambda w: w.__imul__(np.array([[rng.choice([1.0, 1.0, 1.0, -1.0, -1.0]) for _ in range(N)] for _ in range(B)])))
+    elif profile == "member-total-zero":
+        k = rng.choice(members)
+        bins = zero_bins(rng, B, everywhere=rng.random() < 0.4)
+        apply(d[k], lambda w: [zero_row(w, b) for b in bins])
+        touched = dict(member=k, bins=bins)
+    elif profile == "one-patch":
+        k = rng.choice(members)
+        keep = rng.randrange(N)
+        apply(d[k], lambda w: w.__imul__(np.array([[1.0 if i == keep else 0.0 for i in range(N)]] * B)))
+        touched = dict(member=k, patch=keep)
+    else:                               # every member weighs nothing in some bins
+        bins = zero_bins(rng, B)
+        for k in members:
+            apply(d[k], lambda w: [zero_row(w, b) for b in bins])
+        touched = dict(member="all", bins=bins)
+    spec = jk.corr_plain(edges if edges is not None else jk.gen_binning(rng, B), N, d)
+    spec["mag"] = dict(profile="weights:" + profile, touched=touched, counts_scaled=False)
+    return spec
+
+
+def gen_nz_spec_wts(rng, small=False):
+    """jk.gen_nz_spec with the three CorrFuncs drawn from the weight profiles (one binning, one patch number)"""
+    B, N = jk.pick_shape(rng, small)
+    edges = jk.gen_binning(rng, B)
+    defined = [sb for sb in jk.SUBSETS if "dr" in sb or ("rr" not in sb)]
+
+    def one(auto):
+        return gen_corr_wts(rng, rng.choice(defined), auto, shape=(B, N), edges=edges)
+    return dict(cross=one(False), ref=one(True) if rng.random() < 0.7 else None, unk=one(True) if rng.random() < 0.5 else None,
+                mag=dict(profile="nz-weights"))
 
 
 def gen_nz_spec_mag(rng, small=False):
@@ -692,6 +774,17 @@ def run(ctx):
             for auto in (False, True):
                 for sub in (rng.choice(with_rr), rng.choice(jk.SUBSETS)):
                     case_corr(ctx, b_corr, gen_corr_mag(rng, sub, auto, small and rng.random() < 0.7, profile))
+    for rep in range(ctx.n(2, 30)):      # weights: patches that weigh nothing, both signs, totals that cancel
+        for profile in WT_PROFILES:
+            for auto in (False, True):
+                for sub in (rng.choice(with_rr), rng.choice(jk.SUBSETS)):
+                    case_corr(ctx, b_corr, gen_corr_wts(rng, sub, auto, small and rng.random() < 0.7, profile))
+    for _ in range(ctx.n(6, 80)):
+        spec = gen_nz_spec_wts(rng, ctx.quick() or rng.random() < 0.7)
+        case_nz(ctx, b_nz, b_norm, spec)
+        for t in ("cross", "ref", "unk"):
+            if spec[t] is not None:
+                case_corr(ctx, b_corr, spec[t])
     for _ in range(ctx.n(40, 600)):
         case_nz(ctx, b_nz, b_norm, jk.gen_nz_spec(rng, small and rng.random() < 0.7))
     for _ in range(ctx.n(14, 200)):     # n(z) of CorrFuncs of all magnitudes; the CorrFuncs themselves against the model
